@@ -149,6 +149,13 @@ func (a *stdTransport) RoundTrip(req *http.Request) (*http.Response, error) {
 	ctx := req.Context()
 	requiredScope := RequestInfoFromContext(ctx).RequiredScope
 	wantScope := ScopeFromContext(ctx)
+	if wantScope.IsUnlimited() {
+		// "Everything" can't be asked for in a token request (it would
+		// replace the challenge's scope by a meaningless "*", and the
+		// token acquired would be recorded as good for everything),
+		// so it adds nothing to what we ask for.
+		wantScope = Scope{}
+	}
 
 	if err := r.setAuthorization(ctx, req, requiredScope, wantScope); err != nil {
 		return nil, err
